@@ -2,6 +2,8 @@ SPEC = {
     "id": "C11",
     "harness": "c11",
     "n": {"quick": 4000, "thorough": 60000},
+    "model_out": "model_out",
+    "tie_codes": (),   # every code of Check/C11.v is a failing input: the compared observables are determined by the property (C11_break_unique)
     "shard": 250,
     "trusted_base": [
         "the projection of go/cmd/c11 (documented at the top of go/cmd/c11/main.go and in notes/C11.md): item list read from /repo's box tree before layout (hook html/layout/verif_export_c11.go: VerifBoxTree), observables read from the laid-out LineBox/TextBox/InlineBlockBox tree",
@@ -26,6 +28,9 @@ SPEC = {
         "8": "monitor (real font): line boundary at a position where no break is allowed",
         "9": "monitor (real font): y_{k+1} <> y_k + h_k",
         "10": "the implementation panicked / produced no page / the projection failed",
+        "21": "known finding: equals the model with the start edges before a leading space in a span dropped (Check.C11.v_lead)",
+        "22": "known finding: equals the model with the collapsible space before a <br> kept (Check.C11.v_br)",
+        "23": "known findings 21 and 22 together",
     },
     "theorems_for_kind": {
         "para": "C11_break_unique + C11_lines_fit / C11_greedy_maximal / C11_no_forbidden_break (partition), C11_align_spec, C11_indent_first_only, C11_lines_stack, C11_line_height_spec",
